@@ -196,7 +196,7 @@ def _unit(item: tuple) -> Partial:
 
     tag = f"{cfg['mode']}/{','.join(cfg['keys'])}/{'raise' if cfg['raise_'] else 'reuse'}"
     st = bfs.explore(p, impls, model, lambda h: ALPHABET, depth, tag=tag, invariant=inv)
-    p.count("states", st["states"])
+    p.count("bfs_states", st["states"])
     p.max("depth_completed", st["depth"])
     p.count("traces_validated_against_impl", st["transitions"])
     return p
